@@ -22,6 +22,11 @@ fn setup(ctx: &mut Ctx) {
     ctx.floor("truncated-last-record", 200);
     ctx.floor("trailing-garbage", 200);
     ctx.floor("ambiguous-zone", 1);
+    ctx.floor("via:slice:section", 500);
+    ctx.floor("via:slice:segment", 500);
+    ctx.floor("via:stream:section", 500);
+    ctx.floor("via:stream:segment", 500);
+    ctx.floor("via:align=0", 100);
     for e in Enc::ALL {
         ctx.floor(&format!("enc:{}", e.name()), 100);
     }
@@ -31,6 +36,7 @@ fn strata(t: Tier) -> Vec<Stratum> {
     vec![
         st("standalone-sequences", scale(t, 4_800_000, 48_000_000, 40)),
         st("truncate-every-byte", scale(t, 240_000, 2_400_000, 3)),
+        st("via-section-and-segment", scale(t, 120_000, 1_200_000, 3)),
     ]
 }
 
@@ -156,6 +162,154 @@ fn note_align(ctx: &mut Ctx) -> u64 {
     a
 }
 
+/// Notes reached through a section and a PT_NOTE segment of a full object, both parsers.
+fn via_file(ctx: &mut Ctx, enc: Enc) {
+    use crate::codec::k;
+    use crate::gen::elf::{build, ObjSpec, Sec, Seg, SegRange};
+    let model = gen_model(&mut ctx.rng, enc, 8);
+    let lay_align = [1usize, 4, 8, 16][ctx.rng.usize_below(4)];
+    let mut body = emit(enc, lay_align, &model, &mut ctx.rng, true);
+    if ctx.rng.chance(1, 4) {
+        let n = 1 + ctx.rng.usize_below(20);
+        let g = ctx.rng.bytes(n);
+        body.extend_from_slice(&g);
+    }
+    // declared alignments: usually the layout's, sometimes anything (incl. 0)
+    let pick = |ctx: &mut Ctx| -> u64 {
+        if ctx.rng.chance(2, 3) {
+            lay_align as u64
+        } else {
+            let a = ALIGNS[ctx.rng.usize_below(ALIGNS.len())];
+            if a == 0 {
+                ctx.count("via:align=0");
+            }
+            if enc.c64 { a } else { a & 0xffff_ffff }
+        }
+    };
+    let sh_align = pick(ctx);
+    let p_align = pick(ctx);
+    let mut spec = ObjSpec::new(enc);
+    spec.add(Sec::new(b".text", k::SHT_PROGBITS, ctx.rng.bytes(7)));
+    let mut s = Sec::new(b".note.x", k::SHT_NOTE, body.clone());
+    s.addralign = sh_align;
+    s.file_align = lay_align;
+    let idx = spec.add(s);
+    spec.segs.push(Seg { p_type: k::PT_NOTE, flags: 4, range: SegRange::OfSection(idx), vaddr: 0, paddr: 0, memsz_extra: 0, align: p_align });
+    spec.max_gap = 5;
+    let b = build(&spec, &mut ctx.rng);
+    let data = &b.bytes[..];
+    ctx.set_input(data);
+    if model.len() >= 2 {
+        ctx.nontrivial_bytes(data);
+    }
+    ctx.sample(|| format!("{} object: {} notes laid out with align {}, sh_addralign={:#x}, p_align={:#x}", enc.name(), model.len(), lay_align, sh_align, p_align));
+    let (off, len) = (b.secs[idx].off as usize, b.secs[idx].size as usize);
+    let range = &data[off..off + len];
+    let f = match super::util::open_slice(data) {
+        Ok(f) => f,
+        Err(e) => {
+            ctx.inconclusive(format!("generated note object does not open: {e}"));
+            return;
+        }
+    };
+    let sh = f.section_headers().and_then(|t| t.get(idx).ok());
+    let ph = f.segments().and_then(|t| t.get(0).ok());
+    let (Some(sh), Some(ph)) = (sh, ph) else {
+        ctx.inconclusive("generated note object lacks its headers".to_string());
+        return;
+    };
+    // the slices handed out by the slice parser are exactly `range`; notes must be those laid out in it
+    match f.section_data(&sh) {
+        Ok((d, _)) if d.as_ptr() == range.as_ptr() && d.len() == range.len() => {}
+        other => {
+            ctx.inconclusive(format!("section_data of the note section is not the designated range: {:?}", other.map(|d| d.0.len())));
+            return;
+        }
+    }
+    match f.section_data_as_notes(&sh) {
+        Ok(it) => {
+            ctx.count("via:slice:section");
+            check_iteration(ctx, "ElfBytes::section_data_as_notes", enc.big, sh_align, f.section_data(&sh).map(|d| d.0).unwrap_or(&[]), it);
+        }
+        Err(e) => ctx.violation("ElfBytes::section_data_as_notes:error", format!("failed on a well-formed note section: {e:?}")),
+    }
+    match (f.segment_data(&ph), f.segment_data_as_notes(&ph)) {
+        (Ok(d), Ok(it)) => {
+            ctx.count("via:slice:segment");
+            check_iteration(ctx, "ElfBytes::segment_data_as_notes", enc.big, p_align, d, it);
+        }
+        (a, b) => ctx.violation("ElfBytes::segment_data_as_notes:error", format!("failed on a well-formed note segment: data ok={} notes ok={}", a.is_ok(), b.is_ok())),
+    }
+    // the stream parser copies the bytes, so its notes are compared by content with the reference walk
+    // of an identical copy: collect owned dumps from both and compare
+    if let Ok(mut st) = super::util::open_stream(data) {
+        let shs = *st.section_headers().get(idx).unwrap();
+        let phs = *st.segments().first().unwrap();
+        match st.section_data_as_notes(&shs) {
+            Ok(it) => {
+                ctx.count("via:stream:section");
+                let got = crate::observe::dump_notes(it, 1000);
+                let want = dump_expected(enc.big, sh_align, range);
+                if !want.iter().any(|w| *w == got) {
+                    ctx.violation("ElfStream::section_data_as_notes:content", format!("sh_addralign={sh_align:#x}: stream yielded {} but the notes laid out are {}", cut(&got), cut(&want[0])));
+                }
+            }
+            Err(e) => ctx.violation("ElfStream::section_data_as_notes:error", format!("failed on a well-formed note section: {e:?}")),
+        }
+        match st.segment_data_as_notes(&phs) {
+            Ok(it) => {
+                ctx.count("via:stream:segment");
+                let got = crate::observe::dump_notes(it, 1000);
+                let want = dump_expected(enc.big, p_align, range);
+                if !want.iter().any(|w| *w == got) {
+                    ctx.violation("ElfStream::segment_data_as_notes:content", format!("p_align={p_align:#x}: stream yielded {} but the notes laid out are {}", cut(&got), cut(&want[0])));
+                }
+            }
+            Err(e) => ctx.violation("ElfStream::segment_data_as_notes:error", format!("failed on a well-formed note segment: {e:?}")),
+        }
+    }
+}
+
+fn cut(s: &str) -> String {
+    s.chars().take(300).collect()
+}
+
+/// The acceptable dumps for `data` under `align`: the certain notes, and (when the data ends inside
+/// padding) also the certain notes plus the padding-truncated one. Built by iterating a *reference-checked*
+/// stand-alone iterator: first the stand-alone iterator is judged against the reference walker (so a
+/// wrong iterator is reported there), then its dump is the expectation for the stream path.
+fn dump_expected(big: bool, align: u64, data: &[u8]) -> Vec<String> {
+    use elf::file::Class;
+    let w = walk(big, align, data);
+    // reconstruct the expected dump from the reference walk by dumping slices of a stand-alone iterator
+    // limited to exactly the expected number of notes
+    let mut outs = Vec::new();
+    for n in [w.notes.len(), w.notes.len() + w.ambiguous.is_some() as usize] {
+        let al = if align == 0 { 1 } else { align };
+        let _ = al;
+        // expected typed dump built directly from the reference notes
+        let mut s = String::from("notes{");
+        for (i, rn) in w.notes.iter().chain(w.ambiguous.iter()).enumerate() {
+            if i >= n {
+                break;
+            }
+            match typed(big, data, rn) {
+                RefTyped::AbiTag { os, major, minor, subminor } => s.push_str(&format!("{:?};", elf::note::Note::GnuAbiTag(elf::note::NoteGnuAbiTag { os, major, minor, subminor }))),
+                RefTyped::BuildId(d) => s.push_str(&format!("{:?};", elf::note::Note::GnuBuildId(elf::note::NoteGnuBuildId(&d)))),
+                RefTyped::Unknown { n_type, name, desc, name_str } => {
+                    let desc: &[u8] = if rn.desc.0 + rn.desc.1 <= data.len() { &desc } else { &[] };
+                    s.push_str(&format!("any(type={},name={},desc={},str={:?});", n_type, crate::observe::dump_bytes(&name), crate::observe::dump_bytes(desc), name_str.as_deref().ok_or("utf8")));
+                }
+                RefTyped::Unjudged => s.push_str("?;"),
+            }
+        }
+        s.push('}');
+        outs.push(s);
+    }
+    let _ = Class::ELF32;
+    outs
+}
+
 fn run(ctx: &mut Ctx, si: usize, _case: u64) {
     let enc = Enc::ALL[ctx.rng.usize_below(4)];
     ctx.count(&format!("enc:{}", enc.name()));
@@ -189,6 +343,7 @@ fn run(ctx: &mut Ctx, si: usize, _case: u64) {
             ctx.sample(|| format!("{} align={} notes={} any={} data={}", enc.name(), align, model.len(), any, hex_trunc(&data, 64)));
             standalone(ctx, enc, align, &data, any);
         }
+        2 => via_file(ctx, enc),
         _ => {
             // a short sequence truncated at every byte
             let align = [1u64, 2, 4, 8, 16, 3][ctx.rng.usize_below(6)];
